@@ -694,6 +694,17 @@ def cases(tier, rng, extended=False):
                     # the same script with many reports, oracle only
                     line = scenario(rng, P, shape, nb, f"n{max(100, 1500 // max(1, nb))}", False)
                     yield Case(line, k=False, tag=f"sv/{size}/{shape}", timeout=300)
+    yield from _late_block_cases(rng, quick)
+
+
+def _late_block_cases(rng, quick):
+    """very large primes (>= 2^19) hit an interval of more than 8 blocks twice: the second hit lands in
+    block 8 or later. Oracle only (no model comparison), in every tier."""
+    P = make_fb(rng, 14000 if quick else 23000, 0.5, 0)
+    for shape in (["plain", "recycle"] if quick else ["plain", "partial", "recycle", "rehash"]):
+        for nb in ([12] if quick else [9, 12, 20]):
+            line = scenario(rng, P, shape, nb, "n120", False)
+            yield Case(line, k=False, tag=f"sv/late-block/{shape}", timeout=600)
 
 
 def corpus_case(line):
